@@ -12,7 +12,7 @@ const SPEC: Spec = Spec {
     ],
     bounds_quick: "G1 all (a,b) in [-300,300]^2; G2 T x T with T = {2^i*u : 14 shifts i up to 200, u in 9 odd parts} x 4 sign pairs; G3 Dense(S5,3) x Dense(S5,2) x 4 sign pairs",
     bounds_thorough: "G1 [-1000,1000]^2; G2 with 22 shifts up to 320 and 9 odd parts; G3 Dense(S5,3)^2 x 4 sign pairs",
-    hang_secs: 300,
+    hang_secs: 60,
     probes: None,
     max_workers: 16,
 };
